@@ -278,3 +278,32 @@ package db
 //@ func DatabaseCollectionWithUser.PutExistingRev
 //@   modifies *
 //@   before[no-resolver] call PutExistingRevWithConflictResolution#1 $2.ConflictResolver == nil && $2.NewDoc == newDoc && $2.NoConflicts == noConflicts
+
+// ---- the post-commit correction (generated version ahead of the server CAS) never touches another writer's commit ----
+
+// correctVersionAheadOfCAS runs AFTER this writer's update was committed with CAS casOut: it sleeps, then rewrites the
+// metadata xattrs from the writer's IN-MEMORY document (restampVersionCAS, contract in zz_verif_c09.go: one UpdateXattrs
+// guarded on the cas it is given). While it sleeps other clients may commit acknowledged writes. The in-memory copy
+// does not contain them, so the re-stamp is only harmless if it is refused whenever the document has moved on:
+//   [own-cas-guard]     every re-stamp (whatever the call site) is for this key and document and is guarded on casOut,
+//                       the CAS of THIS writer's own committed write -- never on a CAS obtained later;
+//   [mismatch-is-final] no re-stamp is attempted after an earlier one ([single-restamp]: there is no second one at
+//                       all), in particular not after a CAS mismatch: that outcome means a concurrent writer won,
+//                       and "it's that writer's responsibility to satisfy the invariant";
+//   [no-current-cas-*]  the function does not read the document's current CAS (getRevSeqNo and the document loaders
+//                       are the calls that can): there is nothing it could legitimately use one for.
+// restampVersionCAS is the only storage call of the function. (`only-contracts`: its own contract is a path contract,
+// which cannot be applied at a call site; it is treated as an opaque storage write here.)
+//@ func DatabaseCollectionWithUser.correctVersionAheadOfCAS
+//@   props C05 C09
+//@   modifies *
+//@   only-contracts IsCasMismatch
+//@   before[own-cas-guard]     call restampVersionCAS $2 == key && $3 == doc && $4 == casOut
+//@   before[mismatch-is-final] call restampVersionCAS !called(restampVersionCAS, 2)     // evaluated at each call site, the site itself included: no site is a second re-stamp
+//@   ensures[single-restamp]   !called(restampVersionCAS, 2)
+//@   before[no-current-cas-read-1] call getRevSeqNo false
+//@   before[no-current-cas-read-2] call GetDocWithXattrs false
+//@   before[no-current-cas-read-3] call GetDocument false
+//@   before[no-current-cas-read-4] call GetWithXattrs false
+//@   before[no-current-cas-read-5] call GetXattrs false
+//@   ensures[same-doc]         result == doc
